@@ -711,8 +711,8 @@ def quick_stateful():
 
 def thorough_stateful():
     return ([c for c in C_EVERY_LINE if c[0].split("@")[1] not in ("a0b", "l0a", "p0b", "r0a")]
-            + [("2x2-big", C_2x2_BIG), ("2x2+write-fails", C_2x2_FAIL), ("2x3", C_2x3), ("2x(1,5)", C_2x15),
-               ("2x4", C_2x4), ("3x1", C_3x1), ("3x(1,2,1)", C_3x121)])
+            + [("2x2-big", C_2x2_BIG), ("2x2+write-fails", C_2x2_FAIL), ("2x3", C_2x3), ("3x1", C_3x1),
+               ("2x(1,5)", C_2x15), ("3x(1,2,1)", C_3x121), ("2x4", C_2x4)])
 
 
 def bounded_configs():
